@@ -21,6 +21,7 @@ SIZES = {
     "loaded": (250, 3000),
     "records": (200, 2500),
     "mixedkeys": (250, 3000),
+    "crossplist": (80, 800),
 }
 DEFAULT_KINDS = ["small", "random", "skewed", "mset", "msetdup", "xml", "huge", "csv", "pyobj", "plist", "loaded", "records", "mixedkeys"]
 
